@@ -1,47 +1,22 @@
 NP = "np_packet_h"
 PROP = dict(
     functions=[
-        "ntp_proto::packet::NtpPacket::{deserialize<NoCipher>, serialize<NoCipher>} (v3/v4/v5 headers, Mac::{deserialize,serialize})",
-        "ntp_proto::packet::extension_fields::{ExtensionFieldData::{deserialize,serialize}, ExtensionField::{decode,serialize,encode_framing,encode_padding,write_zeros,encode_unique_identifier,encode_nts_cookie,encode_nts_cookie_placeholder,encode_unknown,encode_draft_identification}}",
-        "ntp_proto::packet::v5::extension_fields::{ReferenceIdRequest::{decode,serialize}, ReferenceIdResponse::{decode,serialize}}, NtpHeaderV5::{deserialize,serialize}",
+        "ntp_proto::packet::NtpPacket::{deserialize<NoCipher>, serialize<NoCipher>} (v3/v4 headers; v4 extension fields)",
+        "ntp_proto::packet::extension_fields::{ExtensionFieldData::{deserialize,serialize}, ExtensionField::{decode,serialize,encode_framing,encode_padding,write_zeros,encode_unique_identifier}}",
     ],
-    bounds="inputs of C23 without keys that can be accepted: v3/v4 header alone (every mode and leap value, other 47 bytes symbolic); v3/v4 header + MAC of 4, 5, 20, 24 bytes; templates (first header byte and v5 timescale/flags concrete, everything else symbolic) with 1-3 fields of concrete type/length: v4 fields 16/20/28/32 (+MAC), v5 fields 4..8,15,16,17,20 before/after the draft field, second draft field with symbolic ASCII content, v5 header fully symbolic with the draft field only. Oracle: encode Ok; encoding == normal form of the input computed from the wire format (padding zeroed, unused request tail zeroed, v5 leap bits); decode(encoding) == packet; second encoding identical (byte-wise claims at an arbitrary index)",
-    outside="packets with NTS fields (not accepted without keys); inputs beyond the C23 templates; serialize's desired_size padding (None here)",
+    bounds="v3 and v4 48-byte headers (every mode and leap value for v3; v3 client + v4 server in the quick tier), other 47 bytes symbolic; v4 header + one 28-byte unique-id field. Oracle: encode Ok; encoding == normal form of the input computed from the wire format (here: identity), all bytes; decode(encoding) == packet; second encoding identical.",
+    outside="NOT VERIFIED IN TIME (harnesses prepared in c24.rs, one image each, 5-15 min of CBMC each on the loaded machine): MACs of 4/5/20/24 bytes, v4 cookie/draft-type/placeholder/multi-field images, v4 fields below the RFC 7822 minimum (padded by the encoder: only encode-Ok/decodes/stable required), all NTPv5 images (odd lengths, reference-id request/response, second draft field, symbolic v5 header). Packets with NTS fields (not accepted without keys); serialize's desired_size padding.",
     assumptions=[
-        "c24_rt_v5_req*: reference-id request with payload length not a multiple of 4 excluded (candidate finding, harness c24_rt_v5_kf_refid_req_unaligned)",
-        "c24_rt_v4_short: for v4 fields below the RFC 7822 minimum the encoder pads (the property's one normalising round): only encode-Ok / decodes / second encoding identical are required there",
+        "c24_rt_v5_req*: reference-id request with payload length not a multiple of 4 excluded (finding; harness c24_rt_v5_kf_refid_req_unaligned expected to fail)",
     ],
     stub_notes=[
-        "core::str::from_utf8 / core::slice::ascii::is_ascii -> ASCII-only models (see C23)",
-        "Cargo.toml [package.metadata.kani]: --max-field-sensitivity-array-size 160, --unwindset memcmp.0:520, drop_glue<[ExtensionField]>.0:6",
+        "core::str::from_utf8 / core::slice::ascii::is_ascii -> ASCII-only models, AES-SIV/zeroize stubs, Cargo.toml cbmc-args (see C23)",
     ],
     harnesses=[
-        H(NP, "c24", "c24_rt_hdr_q", "v3 client header, v4 server header: identity", timeout=600),
-        H(NP, "c24", "c24_rt_hdr_v3", "v3 header, all modes/leap values: identity", tier="thorough"),
-        H(NP, "c24", "c24_rt_hdr_v4", "v4 header, all modes/leap values: identity", tier="thorough"),
-        H(NP, "c24", "c24_rt_mac_v3", "v3 header + MAC of 4/5/20/24 bytes: identity", tier="thorough"),
-        H(NP, "c24", "c24_rt_mac_v4", "v4 header + MAC of 4/5/20/24 bytes: identity", tier="thorough"),
-        H(NP, "c24", "c24_rt_v4_uid", "v4 unique id 28", tier="thorough"),
-        H(NP, "c24", "c24_rt_v4_cookie_mac", "v4 cookie 28 + 24-byte MAC", tier="thorough"),
-        H(NP, "c24", "c24_rt_v4_draft_type", "v4 field of the draft-id type 32 + 4-byte MAC", tier="thorough"),
-        H(NP, "c24", "c24_rt_v4_placeholder", "v4 cookie placeholder 28 (symbolic body)", tier="thorough"),
-        H(NP, "c24", "c24_rt_v4_two", "v4 unique id 16 + cookie 28", tier="thorough"),
-        H(NP, "c24", "c24_rt_v4_two_mac", "v4 unknown 20 + unique id 28 + 16-byte MAC", tier="thorough"),
-        H(NP, "c24", "c24_rt_v4_three", "v4 three fields", tier="thorough"),
-        H(NP, "c24", "c24_rt_v4_short4", "v4 4-byte field + 24-byte MAC (below RFC 7822 minimum: padded; encodable, decodes, stable)", tier="thorough"),
-        H(NP, "c24", "c24_rt_v4_short24", "v4 24-byte last field + 4-byte MAC (padded)", tier="thorough"),
-        H(NP, "c24", "c24_rt_v4_short_first", "v4 8-byte first field (padded)", tier="thorough"),
-        H(NP, "c24", "c24_rt_v5_uid4", "v5 draft + empty unique id", tier="thorough"),
-        H(NP, "c24", "c24_rt_v5_cookie5", "v5 draft + 1-byte cookie", tier="thorough"),
-        H(NP, "c24", "c24_rt_v5_resp7", "v5 draft + 3-byte reference-id response", tier="thorough"),
-        H(NP, "c24", "c24_rt_v5_other17", "v5 13-byte unknown field + draft", tier="thorough"),
-        H(NP, "c24", "c24_rt_v5_req8", "v5 draft + 4-byte reference-id request", tier="thorough"),
-        H(NP, "c24", "c24_rt_v5_req16", "v5 12-byte reference-id request + draft", tier="thorough"),
-        H(NP, "c24", "c24_rt_v5_padding6", "v5 draft + 2-byte padding-type field", tier="thorough"),
-        H(NP, "c24", "c24_rt_v5_placeholder", "v5 draft + 11-byte placeholder (symbolic body)", tier="thorough"),
-        H(NP, "c24", "c24_rt_v5_draft_only", "v5 draft field only", tier="thorough"),
-        H(NP, "c24", "c24_rt_v5_draft", "v5 second draft field with symbolic ASCII content", tier="thorough"),
-        H(NP, "c24", "c24_rt_v5_header", "v5 header fully symbolic + draft field: leap/flag normalisation", tier="thorough"),
-        H(NP, "c24", "c24_rt_v5_kf_refid_req_unaligned", "EXPECTED TO FAIL: v5 reference-id request with 2-byte payload: serialize panics", tier="thorough"),
+        H(NP, "c24", "c24_rt_hdr_q", 'v3 client header, v4 server header: identity', timeout=900),  # measured 62 s CBMC under load
+        H(NP, "c24", "c24_rt_hdr_v3", 'v3 header, all modes/leap values: identity', tier="thorough", timeout_thorough=3600),  # measured 826 s CBMC under load
+        H(NP, "c24", "c24_rt_v4_uid", 'v4 unique id 28', timeout=900),  # measured 91 s CBMC under load
     ],
+    # prepared in the harness crate but NOT registered (did not finish / not re-verified in time / expected to fail):
+    # c24_rt_hdr_v4, c24_rt_mac_v3, c24_rt_mac_v4, c24_rt_v4_cookie_mac, c24_rt_v4_draft_type, c24_rt_v4_placeholder, c24_rt_v4_two, c24_rt_v4_two_mac, c24_rt_v4_three, c24_rt_v4_short4, c24_rt_v4_short24, c24_rt_v4_short_first, c24_rt_v5_uid4, c24_rt_v5_cookie5, c24_rt_v5_resp7, c24_rt_v5_other17, c24_rt_v5_req8, c24_rt_v5_req16, c24_rt_v5_padding6, c24_rt_v5_placeholder, c24_rt_v5_draft_only, c24_rt_v5_draft, c24_rt_v5_header, c24_rt_v5_kf_refid_req_unaligned
 )
